@@ -323,6 +323,11 @@ def run(ck):
         nd = single_def(im, 'nodes')
         ok = ok and len(lp) == 1 and nd is not None and u(nd) == '[molecule.nodes[atom] for atom in interaction.atoms]' and any(attr_false[0][0] is n for n in ast.walk(lp[0]))
     ck.ob('DT-interaction-match', molmod.loc(im), ok, 'atoms and parameters must both match; then, for a removal template, every atom must match the attributes written for it, and the metadata must match', key='DT-interaction-match|atom-attrs')
+    amc = [c for c in walk_local(im) if isinstance(c, ast.Call) and call_name(c) == 'attributes_match' and [u(a) for a in c.args[:2]] == ['atom', 'template_atom']]
+    ign = try_fold(kwarg(amc[0], 'ignore_keys'), default=None) if len(amc) == 1 and kwarg(amc[0], 'ignore_keys') is not None else ()
+    ck.ob('DT-interaction-match', molmod.loc(im), len(amc) == 1 and ign is not None and set(ign) == {'order'},
+          'the attributes written for an atom of a removal line are compared with the molecule atom, except `order`: the order is honoured through the atom keys and no atom of a '
+          'molecule carries it (so "BB +BB" and "BB BB" with an order attribute of 1 remove the same thing) -- ignored keys: {}'.format(ign), key='DT-interaction-match|order-not-an-attribute')
     # attributes_match: every template attribute must match (equal, or accepted by its predicate); ignored keys skipped
     rets = stmts_with_env(am, lambda s_: isinstance(s_, ast.Return))
     fl = [r for r in rets if try_fold(r[0].value, default=1) is False]
